@@ -690,59 +690,10 @@ func r086(c *Ctx, r *R) {
 				}
 			}
 		})
-		// indexed fill is complete: a slice sized beforehand (make with a
-		// length) and filled by index inside a loop gets its element on
-		// every path that continues the loop; a `continue` around the
-		// store leaves a zero element (a nil interface or pointer, an
-		// empty id) inside a value the decoder reports as good.
-		instrs(f, func(i ssa.Instruction) {
-			st, ok := i.(*ssa.Store)
-			if !ok {
-				return
-			}
-			ia, ok := st.Addr.(*ssa.IndexAddr)
-			if !ok {
-				return
-			}
-			if _, ok := ia.X.(*ssa.MakeSlice); !ok {
-				return
-			}
-			B := st.Block()
-			reach := func(from []*ssa.BasicBlock, target, avoid *ssa.BasicBlock) bool {
-				seen := map[*ssa.BasicBlock]bool{}
-				var stack []*ssa.BasicBlock
-				stack = append(stack, from...)
-				for len(stack) > 0 {
-					x := stack[len(stack)-1]
-					stack = stack[:len(stack)-1]
-					if x == avoid || seen[x] {
-						continue
-					}
-					seen[x] = true
-					if x == target {
-						return true
-					}
-					stack = append(stack, x.Succs...)
-				}
-				return false
-			}
-			// the loop header: the nearest dominator that the store's
-			// block can reach again
-			var H *ssa.BasicBlock
-			for d := B.Idom(); d != nil; d = d.Idom() {
-				if reach(B.Succs, d, nil) {
-					H = d
-					break
-				}
-			}
-			if H == nil {
-				return // not in a loop
-			}
-			if reach(H.Succs, H, B) {
-				probs = append(probs, fmt.Sprintf("can continue the loop without storing the element of the slice sized beforehand (store at %s): a zero element stays in the decoded value", c.P.Pos(st.Pos())))
-			}
-			fills++
-		})
+		for _, hole := range indexedFillHoles(c, f, false) {
+			probs = append(probs, hole)
+		}
+		fills += countIndexedFills(f)
 		if len(probs) == 0 {
 			r.OK("decoder:"+key, f.Pos(), "no panic, no unchecked assertion, no dropped error, indexed fills complete")
 		} else {
@@ -752,4 +703,144 @@ func r086(c *Ctx, r *R) {
 	// no floor on purpose: a decoder rewritten with append has no such fill
 	// and cannot leave a hole
 	r.OK("decoder:indexed-fills-seen", token.NoPos, "%d indexed fills of pre-sized slices examined", fills)
+	// the same idiom anywhere else in the repository (records built from
+	// what a daemon or a peer answered: IPFS identity, peer lists, ...)
+	inDecoders := map[*ssa.Function]bool{}
+	for _, d := range decoders {
+		if f := c.P.Func(d[0], d[1]); f != nil {
+			inDecoders[f] = true
+		}
+	}
+	c.P.RepoFuncs(func(f *ssa.Function) {
+		if inDecoders[f] || f.Blocks == nil || f.Pkg == nil || strings.HasPrefix(f.Pkg.Pkg.Path(), ModPath+"/test") {
+			return
+		}
+		if countIndexedFills(f) == 0 {
+			return
+		}
+		holes := indexedFillHoles(c, f, true)
+		key := "fill:" + strings.TrimPrefix(f.Pkg.Pkg.Path(), ModPath) + "." + f.Name()
+		if f.Parent() != nil {
+			key += "$" + f.Parent().Name()
+		}
+		if len(holes) == 0 {
+			r.OK(key, f.Pos(), "indexed fills complete")
+		} else {
+			r.Bad(key, f.Pos(), "%s %s", f.Name(), strings.Join(holes, "; "))
+		}
+	})
+}
+
+// indexedFillHoles: a slice sized beforehand (make with a length) and filled
+// by index inside a loop must get its element on every path that continues
+// the loop; a `continue` around the store leaves a zero element (a nil
+// interface or pointer, an empty id) inside a value reported as good.
+func indexedFillHoles(c *Ctx, f *ssa.Function, nilLikeOnly bool) []string {
+	var probs []string
+	instrs(f, func(i ssa.Instruction) {
+		st, ok := i.(*ssa.Store)
+		if !ok {
+			return
+		}
+		ia, ok := st.Addr.(*ssa.IndexAddr)
+		if !ok {
+			return
+		}
+		if _, ok := ia.X.(*ssa.MakeSlice); !ok {
+			return
+		}
+		if nilLikeOnly {
+			// outside the decoders: only element types whose zero value
+			// is a nil that crashes its users (pointer, interface, or a
+			// struct wrapping one), and only when this is the slice's
+			// single fill (a slice filled by an earlier loop and patched
+			// conditionally later is a different idiom)
+			if !nilLike(ia.X.Type().Underlying().(*types.Slice).Elem()) {
+				return
+			}
+			others := 0
+			for _, ref := range *ia.X.Referrers() {
+				// handed to a callee (which may fill it)
+				if ci, ok := ref.(ssa.CallInstruction); ok {
+					if cn := callName(ci.Common()); cn != "builtin.len" && cn != "builtin.cap" {
+						others++
+					}
+				}
+				if ia2, ok := ref.(*ssa.IndexAddr); ok && ia2 != ia {
+					for _, r2 := range *ia2.Referrers() {
+						if s2, ok := r2.(*ssa.Store); ok && s2.Addr == ssa.Value(ia2) {
+							others++
+						}
+					}
+				}
+			}
+			if others > 0 {
+				return
+			}
+		}
+		B := st.Block()
+		var H *ssa.BasicBlock
+		for d := B.Idom(); d != nil; d = d.Idom() {
+			if inNaturalLoop(B, d) {
+				H = d
+				break
+			}
+		}
+		if H == nil {
+			return // not in a loop
+		}
+		// the index must be the loop's own counter (a phi of the header):
+		// fills at computed positions (compaction with a second counter)
+		// are a different idiom
+		isCounter := func(v ssa.Value) bool {
+			if bo, ok := v.(*ssa.BinOp); ok { // range loops use counter+1
+				v = bo.X
+			}
+			phi, ok := v.(*ssa.Phi)
+			return ok && phi.Block() == H
+		}
+		if !isCounter(ia.Index) {
+			return
+		}
+		// a cycle through the header that avoids the store
+		avoidsStore := false
+		for _, s0 := range H.Succs {
+			if s0 != B && blockReachesAvoiding(s0, H, B) {
+				avoidsStore = true
+			}
+		}
+		if avoidsStore {
+			probs = append(probs, fmt.Sprintf("can continue the loop without storing the element of the slice sized beforehand (store at %s): a zero element stays in the value", c.P.Pos(st.Pos())))
+		}
+	})
+	return probs
+}
+
+func countIndexedFills(f *ssa.Function) int {
+	n := 0
+	instrs(f, func(i ssa.Instruction) {
+		if st, ok := i.(*ssa.Store); ok {
+			if ia, ok := st.Addr.(*ssa.IndexAddr); ok {
+				if _, ok := ia.X.(*ssa.MakeSlice); ok {
+					n++
+				}
+			}
+		}
+	})
+	return n
+}
+
+// nilLike: the zero value of t is (or wraps) a nil pointer or interface.
+func nilLike(t types.Type) bool {
+	switch u := t.Underlying().(type) {
+	case *types.Pointer, *types.Interface:
+		return true
+	case *types.Struct:
+		for i := 0; i < u.NumFields(); i++ {
+			if _, ok := u.Field(i).Type().Underlying().(*types.Interface); ok {
+				return true
+			}
+		}
+	}
+	return false
 }
